@@ -117,7 +117,7 @@ def run_case(case):
     stats["max_switches"] = res["switches"]
     viol += res["viol"]
     sig = hash(res["trace"]) if (res["line_yields"] or case["impl"] == "async") and res["switches"] else None
-    sample = {"case": case, "actors": [[s_["op"] + ":" + s_["cmd"] for s_ in a] for a in steps], "open_ids": res["ids"][:10], "line_yields": res["line_yields"], "switches": res["switches"]} if case["seed"].endswith(":8") or case["seed"].endswith(":3") else None
+    sample = {"case": case, "actors": [[s_["op"] + ":" + s_.get("cmd", "") for s_ in a] for a in steps], "open_ids": res["ids"][:10], "line_yields": res["line_yields"], "switches": res["switches"]} if case["seed"].endswith(":8") or case["seed"].endswith(":3") else None
     seen = {}
     for v in viol:
         seen.setdefault(v["mechanism"], v)
